@@ -20,17 +20,29 @@
 (* SeedFor(prev, toc) - what C33 says a seed is a function of.             *)
 (*                                                                         *)
 (* n.cur   current round                 (chain.currentRound)              *)
-(* n.lfb   latest finalized block, n.rfin round -> block finalized with    *)
+(* n.lfb   latest finalized block, n.lfbr its round,                       *)
+(* n.rfin  round -> block the round was finalized with (round.Finalize)    *)
 (* n.tk    round of the latest LFB ticket (sharders)                       *)
 (* n.rtc   chain level round timeout count (restartRound)                  *)
-(* n.R     round number -> round record  (chain.rounds, miner.Round)       *)
-(* n.K     block name -> the node's block object (chain.blocks)            *)
+(* n.R     round number -> round record  (chain.rounds, miner.Round):      *)
+(*         toc, soft (soft timeouts), phase, seed, shares, cache (VRF      *)
+(*         shares kept for later), vrfown (timeout count of the own share),*)
+(*         proposed, best (Round.Block), own (own verification ticket),    *)
+(*         nb (notarized list), fin (finalizing state), coll / chan /      *)
+(*         fired / acc (the verification collector: running, its channel,  *)
+(*         timer fired, blocks accumulated), rtk (tickets collected on the *)
+(*         round for blocks it does not have)                              *)
+(* n.K     block name -> the node's block object (chain.blocks): st (block *)
+(*         state), tk / bad (ticket signers / those with a bad signature), *)
+(*         notar (IsBlockNotarized), rank (stored RoundRank), comp (state  *)
+(*         computed)                                                       *)
 (* n.mq    messages accepted by the receipt handlers, not yet dispatched   *)
 (* n.gen   rounds with a block generation goroutine spawned                *)
 (* n.mov   rounds r with moveToNextRoundNotAhead(r) spawned                *)
 (* n.movw  ... of which blocked in waitNotAhead                            *)
 (* n.fq    rounds handed to FinalizeRound (goroutine + FinalizeRoundWorker)*)
 (* n.upn   proposals whose previous block's notarization is being checked  *)
+(* n.nzp   blocks a notarization was ever queued for (never cleaned)       *)
 (***************************************************************************)
 EXTENDS Integers, Sequences, FiniteSets, TLC, FinalizationDefs
 
@@ -306,10 +318,14 @@ CollTimer(n, e, r, B) ==
 
 -----------------------------------------------------------------------------
 (* mc.AddToRoundVerification + mc.processVerifyBlock (miner/protocol_receive.go) *)
-\* DEVIATION kept as in the code (e.mrg): processVerifyBlock's goroutine (updatePreviousBlockNotarization ->
-\* GetPreviousBlock) may link the wire block to the local previous block before this function looks at
-\* b.PrevBlock; if it did, updatePriorBlock merges the previous-block tickets ATTACHED to the proposal into the
-\* local previous block without verifying them (and chain.MergeVerificationTickets re-evaluates its notarization).
+\* A race inside processVerifyBlock (e.mrg): its goroutine (updatePreviousBlockNotarization -> GetPreviousBlock) may
+\* link the wire block to the local previous block before this function looks at b.PrevBlock; if it did,
+\* updatePriorBlock merges the previous-block tickets ATTACHED to the proposal into the local previous block
+\* without verifying them (chain.MergeVerificationTickets re-evaluates its notarization by counting).  As FOUND the
+\* code did that for any previous block, so forged attached tickets could flag a block notarized (C31; fixed in
+\* /repo by merging only into a block that is notarized already).  The operator keeps the as-found capability: the
+\* trace specification sets e.mrg from what the real node did (so the model follows either tree and the Cxx
+\* invariants judge), RoundTrace.tla allows it only under MergeUnverified or for a notarized previous block.
 PrevLinked(n, e, b, B) == B[b].r > 1 /\ b \in e.mrg /\ Has(n, B[b].prev) /\ n.K[B[b].prev].comp
 AddToRoundVerification(n, e, r, b, B) ==
   LET R == n.R[r] IN
